@@ -504,12 +504,13 @@ func c11StageExits(c *Ctx) {
 				if has("empty") && factZero([]fact{fc}, func(v ssa.Value) bool { call, _ := callOf(v); return call != nil && calleeID(&call.Call) == "builtin len" }) { // end-of-data chunk
 					return true
 				}
-				op, x, y, ok := cmpFact(fc)
-				if ok && op == token.GEQ && has("sizeGE") { // the read loop: step >= size
-					if call, _ := callOf(y); isVar("size")(y) || (call != nil && call.Call.IsInvoke() && call.Call.Method.Name() == "getSize") {
-						return true
-					}
+				if has("sizeGE") && factCmp([]fact{fc}, token.GEQ, anyValue, func(y ssa.Value) bool { // the read loop: step >= size
+					call, _ := callOf(y)
+					return isVar("size")(y) || (call != nil && call.Call.IsInvoke() && call.Call.Method.Name() == "getSize")
+				}) {
+					return true
 				}
+				op, x, y, ok := cmpFact(fc)
 				if !ok || op != token.EQL {
 					continue
 				}
